@@ -9,7 +9,7 @@ from mc.util import fingerprint
 
 RULE = (
     "header lattice: projection {TAN, TPV (DECam PV set), TPV0 (no constant PV terms), TPVS (PV set x0.3), "
-    "TANPV (old scamp '-TAN' spelling with PV keys), SIP order 2, 3 and 4 (fourth-order coefficients below 2.2e-16)} x CRVAL {7 points incl. both poles, "
+    "TANPV (old scamp '-TAN' spelling with PV keys), SIP order 2, 3 and 4 (fourth-order coefficients below 2.2e-16), SIP with A_ORDER != B_ORDER (2/3 and 3/2)} x CRVAL {7 points incl. both poles, "
     "near-pole, RA seam} x CD {4 scale/rotation/flip combinations} x CRPIX {centre, corner, far outside}; "
     "pixels = 4x4 (thorough 5x5) grid over the image + CRPIX + 2 seeded points; forms scalar/array/int-array.  "
     "Parts: forward (vs long-double FITS reference, CRPIX->CRVAL, lon range, distort=False, scalar==array, "
@@ -30,9 +30,10 @@ ASSUMPTIONS = [
     "sky2image(find=True, distort=False) on a distorted header is only checked for history independence (find wins over distort in the implementation; the statement does not define that combination)",
     "root-finding inputs are a fixed lattice, not seed-rotated",
     "SIP headers carry AP_ORDER/BP_ORDER (this implementation requires them)",
+    "SIP headers with A_ORDER != B_ORDER: the 'fitted-polynomial accuracy' bound of find=False uses an independent inverse fit of degree min(A_ORDER,B_ORDER)+1 (the implementation sizes both inverse polynomials from the A matrix; the statement does not say which degree is meant)",
 ]
 
-PROJS = ["TAN", "TPV", "TPV0", "TPVS", "TANPV", "SIP2", "SIP3", "SIP4"]
+PROJS = ["TAN", "TPV", "TPV0", "TPVS", "TANPV", "SIP2", "SIP3", "SIP4", "SIP23", "SIP32"]
 CRVALS = [(10.0, 20.0), (0.0, 0.0), (1e-4, -57.0), (359.9999, 89.99), (123.0, 90.0), (45.0, -90.0), (180.0, -89.999)]
 CDS = [(0.27, 30.0, False), (0.05, 200.0, True), (2.0, 90.0, False), (0.27, 0.0, True)]
 CRPIXS = [(1024.0, 2048.0), (1.0, 1.0), (-4617.7, -8609.6)]
@@ -291,6 +292,53 @@ def main(ctx):
     orders = [(i, j) for i in range(6) for j in range(6) if i != j] + [(0, 1, 2, 3, 4, 5), (5, 4, 3, 2, 1, 0), (0, 1, 0, 1), (2, 2, 1)]
     aunits = [(hd, o) for hd in (asel if not ctx.quick else asel[::2]) for o in (orders if not ctx.quick else orders[::3] + orders[-4:])]
     ctx.lattice("inverse-find-array", aunits, one_find_array, bounds=dict(headers=len(asel), orders=len(orders)))
+
+    # targets around a celestial pole that lies INSIDE the image (reference point 0.01 / 0.001 / 0 degrees from it), on all
+    # meridians - in particular beyond the pole, on and next to the meridian opposite CRVAL1, where a longitude
+    # difference can jump by 360 degrees.  The pixel truth is not needed: the reference forward transformation of the
+    # returned pixel must land on the target within 1e-6 px (in degrees: 1e-6 x the pixel scale).
+    def tan_pixel(h, lon, lat):
+        """undistorted gnomonic inverse (closed form), good to a few pixels: only to decide 'inside the image'"""
+        a0, d0 = np.deg2rad(h["crval1"]), np.deg2rad(h["crval2"])
+        a, d = np.deg2rad(lon), np.deg2rad(lat)
+        cosc = np.sin(d0) * np.sin(d) + np.cos(d0) * np.cos(d) * np.cos(a - a0)
+        xi = np.rad2deg(np.cos(d) * np.sin(a - a0) / cosc)
+        eta = np.rad2deg((np.cos(d0) * np.sin(d) - np.sin(d0) * np.cos(d) * np.cos(a - a0)) / cosc)
+        cd = np.array([[h["cd1_1"], h["cd1_2"]], [h["cd2_1"], h["cd2_2"]]])
+        u, v = np.linalg.solve(cd, np.array([xi, eta]))
+        return h["crpix1"] + u, h["crpix2"] + v
+
+    def one_polar(case, rec):
+        hd, dl, colat = case
+        h = mk(hd)
+        sgn = 1.0 if hd[1][1] > 0 else -1.0
+        lon = (hd[1][0] + dl) % 360.0
+        lat = sgn * (90.0 - colat)
+        xa, ya = tan_pixel(h, lon, lat)
+        if not (200 <= xa <= W.NAX[0] - 200 and 200 <= ya <= W.NAX[1] - 200):
+            return                                  # target not (safely) on the image: the linear PV terms shift it by ~100 px
+        w = WCS(dict(h))
+        try:
+            xb, yb = w.sky2image(lon, lat)
+        except Exception as e:
+            return rec.fail(case, "sky2image raised %s: %s" % (type(e).__name__, e))
+        xb, yb = float(xb), float(yb)
+        if not (np.isfinite(xb) and np.isfinite(yb)):
+            return rec.fail(case, "sky2image(find=True) of (%r,%r) near the pole returns (%r,%r)" % (lon, lat, xb, yb))
+        rr, dd = W.forward(h, [xb], [yb])
+        e = float(W.sep(rr, dd, lon, lat)[0])
+        pixdeg = float(np.sqrt(abs(h["cd1_1"] * h["cd2_2"] - h["cd1_2"] * h["cd2_1"])))
+        if e > 1.0e-6 * pixdeg:
+            return rec.fail(case, "sky2image(find=True) of (%r,%r) near the pole: the reference maps the returned pixel %.3g px "
+                                  "away from the target (> 1e-6)" % (lon, lat, e / pixdeg))
+        rec.ok(case, outcome="polar:%s/dl=%g" % (hd[0], dl), nontrivial=True, calls=1)
+
+    pol_headers = [hd for hd in headers if hd[0] != "TAN" and abs(hd[1][1]) >= 89.9 and hd[3] == (1024.0, 2048.0)]
+    if ctx.quick:
+        pol_headers = [hd for hd in pol_headers if hd[0] in ("TPV", "SIP3", "TPV0")]
+    punits = [(hd, dl, c) for hd in pol_headers for dl in (0.0, 90.0, 179.0, 179.9, 180.0, 180.1, 181.0, 270.0)
+              for c in (5e-4, 2e-3, 1e-2, 3e-2)]
+    ctx.lattice("inverse-find-polar", punits, one_polar, bounds=dict(headers=len(pol_headers), meridians=8, colatitudes=4))
 
     # -------------------------------------------------------------- histories
     P = ((100.5, 900.0), (200.25, 1100.0))
